@@ -278,13 +278,14 @@ SetForces(keep) ==
 
 (* ph.produce_force_constants() (1208-1272): a NEW array; only the built-in  *)
 (* finite-difference solver is available, which needs a type-1 dataset      *)
-ProduceFC(lay) ==
+(* (chg = FALSE: the same dataset gives the same force constants again)      *)
+ProduceFC(lay, chg) ==
   /\ dsT = "t1" /\ dsF
   /\ layout' = lay /\ held' = Unalias(held, {"fc"})
   /\ IF "ProduceFC" \in Forget
-       THEN dm' = DmFcReplaced /\ gv' = gv /\ rs' = Aged(rs, "fc", TRUE, FALSE)
-       ELSE dm' = Rebuilt(nacm) /\ gv' = GvAfterRebuild /\ rs' = AfterStateChange(rs, "fc", TRUE)
-  /\ last' = [op |-> "ProduceFC", lay |-> lay]
+       THEN dm' = DmFcReplaced /\ gv' = gv /\ rs' = Aged(rs, "fc", chg, FALSE)
+       ELSE dm' = Rebuilt(nacm) /\ gv' = GvAfterRebuild /\ rs' = AfterStateChange(rs, "fc", chg)
+  /\ last' = [op |-> "ProduceFC", lay |-> lay, chg |-> chg]
   /\ UNCHANGED <<nacm, massS, massU, dsT, dsF, scd, cp, taint>>
 
 (* ph.supercells_with_displacements (940-954): lazily built cache            *)
@@ -460,7 +461,7 @@ OpNext ==
   \/ \E f \in BOOLEAN, typ \in {"t1", "t2"}, keep \in BOOLEAN : SetDataset(f, typ, keep)
   \/ SetDisplacements \/ ClearDataset
   \/ \E keep \in BOOLEAN : SetForces(keep)
-  \/ \E lay \in Layouts : ProduceFC(lay)
+  \/ \E lay \in Layouts, chg \in BOOLEAN : ProduceFC(lay, chg)
   \/ GetSCD \/ Copy("copy") \/ Copy("ph2ph") \/ InitRD \/ SetGV
   \/ \E c \in Getters : Get(c)
   \/ \E k \in QueryKinds : Query(k)
